@@ -1927,13 +1927,7 @@ func r5C11(c *Ctx) {
 		if cs.Kind != "static" || len(cs.Args) < 2 {
 			continue
 		}
-		var pred *ssa.Function
-		switch x := cs.Args[1].(type) {
-		case *ssa.MakeClosure:
-			pred, _ = x.Fn.(*ssa.Function)
-		case *ssa.Function:
-			pred = x
-		}
+		pred := funcValueOf(cs.Args[1], 0)
 		if pred == nil {
 			c.Ob("R11.10", shortName(FuncName(cs.Caller))+"#count-predicate", cs.Instr.Pos(), false, "pod-count predicate", "undecided: the predicate is not a function literal or a named function")
 			continue
@@ -2657,6 +2651,40 @@ func r5C09b(c *Ctx) {
 					if !ok {
 						continue
 					}
+					// the phase test may be a named predicate over the phase: the constants it compares its
+					// parameter with are then the phases of the branch
+					if pc, isCall := iff.Cond.(*ssa.Call); isCall {
+						g := pc.Call.StaticCallee()
+						if g != nil && g.Blocks != nil && g.Pkg == fn.Pkg {
+							for ai, a := range pc.Call.Args {
+								if t := TermOf(a); !(MField("Phase")(t) || t.Any(MField("Phase"))) || ai >= len(g.Params) {
+									continue
+								}
+								if r, _ := CanReach(Point{Block: pb.Succs[0]}, func(x ssa.Instruction) bool { return x == in }, ReachOpts{}); !r {
+									continue
+								}
+								for _, gb := range g.Blocks {
+									for _, gi := range gb.Instrs {
+										gbo, ok := gi.(*ssa.BinOp)
+										if !ok || gbo.Op != token.EQL {
+											continue
+										}
+										var k *ssa.Const
+										var other ssa.Value
+										if kc, ok := gbo.Y.(*ssa.Const); ok {
+											k, other = kc, gbo.X
+										} else if kc, ok := gbo.X.(*ssa.Const); ok {
+											k, other = kc, gbo.Y
+										}
+										if k != nil && k.Value != nil && k.Value.Kind() == constant.String && BackwardSlice(other)[g.Params[ai]] {
+											out[constant.StringVal(k.Value)] = true
+										}
+									}
+								}
+							}
+						}
+						continue
+					}
 					bo, ok := iff.Cond.(*ssa.BinOp)
 					if !ok || bo.Op != token.EQL {
 						continue
@@ -2715,4 +2743,34 @@ func r5C09b(c *Ctx) {
 		c.Ob("R9.2e", v.label+"#immutable-phases", v.fn.Pos(), len(miss) == 0, "immutability is enforced in "+strings.Join(keysOf(v.phases), ", "),
 			ifs(len(miss) > 0, "not enforced in phase "+strings.Join(miss, ", ")+": through this API version the routing references of a Rollout in that phase can be replaced; the teardown then restores the newly named objects (nothing to do), drops the finalizer, and the objects the release really modified keep routing to a deleted canary Service"))
 	}
+}
+
+// funcValueOf resolves a function-typed value to the function it denotes: a literal, a named
+// function, or the literal a repository constructor returns (`return func(...) {...}`).
+func funcValueOf(v ssa.Value, depth int) *ssa.Function {
+	switch x := Forwarded(v).(type) {
+	case *ssa.MakeClosure:
+		f, _ := x.Fn.(*ssa.Function)
+		return f
+	case *ssa.Function:
+		return x
+	case *ssa.Call:
+		g := x.Call.StaticCallee()
+		if g == nil || g.Blocks == nil || depth >= 2 {
+			return nil
+		}
+		var found *ssa.Function
+		for _, ret := range returnsOf(g) {
+			if len(ret.Results) != 1 {
+				continue
+			}
+			f := funcValueOf(ret.Results[0], depth+1)
+			if f == nil || (found != nil && found != f) {
+				return nil
+			}
+			found = f
+		}
+		return found
+	}
+	return nil
 }
